@@ -237,6 +237,10 @@ KERNELS = [
          self_attrs={"_fitness_i": ("fitness_i", "Arr"), "_population_g_i": ("population_g_i", "Arr"), "_population_ph_i": ("population_ph_i", "Arr")},
          actions={"self._update_fittest": 1},
          return_call_kwargs=("self._update_stats", [["max_fitness", "max_g", "max_ph"], "fitness", "population_g", "population_ph"])),
+    # ---- _split_population: the cut points are `linspaceFn 0 pop_size (n_jobs + 1) k` (np.linspace(..., dtype=int64), a float computation)
+    dict(name="EA_split_population", file="base/_ea.py", cls="EvolutionaryAlgorithm", func="_split_population",
+         params=[("population", "Arr")], ret="Mat", self_attrs={"_pop_size": ("pop_size", "Int"), "_n_jobs": ("n_jobs", "Int")},
+         ext_fn={"np.linspace": ("linspaceFn", ["start", "stop", "num"], ["Int", "Int", "Int"])}),
     dict(name="tournament_selection", file="utils/selections.py", func="tournament_selection",
          params=[("fitness", "Arr"), ("rank", "Arr"), ("tour_size", "Int"), ("quantity", "Int")], ret="Arr",
          ext_fn={"random_sample": ("sampler", ["range_size", "quantity", "replace"])}),
@@ -253,7 +257,7 @@ LTY = {"Int": "Int", "Arr": "List Int", "Bool": "Bool", "Mat": "List (List Int)"
        "ArrSelf": "List (List Int)"}
 TREE_ATTR = {"_nodes": "nodes", "_n_args": "nargs"}
 DEFAULT = {"Int": "0", "Arr": "[]", "Bool": "false", "Mat": "[]"}
-RESERVED = ("selFn", "mutFn", "donorFn", "crossFn", "repairFn", "_", "shuffler", "grower", "sampler", "wsampler", "end", "at", "from", "to", "in", "do", "then", "fun", "match", "with", "open", "by", "s", "us", "ns", "fuel", "rolls", "max", "min", "hi0", "samples", "self", "self_nodes", "self_nargs", "log", "stops", "kb", "value_ext", "tree")
+RESERVED = ("linspaceFn", "selFn", "mutFn", "donorFn", "crossFn", "repairFn", "_", "shuffler", "grower", "sampler", "wsampler", "end", "at", "from", "to", "in", "do", "then", "fun", "match", "with", "open", "by", "s", "us", "ns", "fuel", "rolls", "max", "min", "hi0", "samples", "self", "self_nodes", "self_nargs", "log", "stops", "kb", "value_ext", "tree")
 
 
 class NotRecognised(Exception):
@@ -389,6 +393,8 @@ class Tr:
                 return {"get_args_id": "Arr", "get_levels": "Arr", "get_max_level": "Int", "get_common_region": "Mat"}.get(f.attr, "Tree")
             if isinstance(f, ast.Attribute) and isinstance(f.value, ast.Name) and f.value.id == "self" and f.attr in self.tree_methods:
                 return KERNEL_BY_NAME[self.tree_methods[f.attr]]["ret"]
+            if is_np(f, "split") and len(e.args) == 2:
+                return "Mat"
             if is_np(f, "empty", "arange", "zeros", "empty_like", "array", "cumsum"):
                 return "Arr"
             if nm in ("sorted", "range"):
@@ -620,7 +626,7 @@ class Tr:
                 env[id(e)] = f"s.{t}"
             elif kind == "xfn":
                 par, names = self.ext_fn[nm][:2]
-                kw = {k.arg: k.value for k in e.keywords}
+                kw = {k.arg: k.value for k in e.keywords if not (k.arg == "dtype" and nm.startswith("np."))}
                 actual = list(e.args) + [kw.get(n) for n in names[len(e.args):]]
                 if len(actual) != len(names) or any(a is None for a in actual) or len(kw) != len(names) - len(e.args):
                     raise NotRecognised(f"arguments of {ast.unparse(e)}")
@@ -708,6 +714,10 @@ class Tr:
         return (isinstance(st, ast.Assign) and len(st.targets) == 1 and isinstance(st.targets[0], ast.Tuple)
                 and all(isinstance(el, ast.Name) and el.id in self.opaque_unpack for el in st.targets[0].elts)
                 and isinstance(st.value, ast.Subscript))
+
+    @staticmethod
+    def is_minus_one(b):
+        return isinstance(b, ast.UnaryOp) and isinstance(b.op, ast.USub) and isinstance(b.operand, ast.Constant) and b.operand.value == 1
 
     def static_true(self, test):
         """`len(P) == 1` for a parameter P declared as a one-element list of trees"""
@@ -952,6 +962,8 @@ class Tr:
                 if sl.step is not None or self.ty(e.value) != "Arr":
                     raise NotRecognised(f"slice {ast.unparse(e)}")
                 lo = self.E(sl.lower, env) if sl.lower is not None else "(0 : Int)"
+                if self.is_minus_one(sl.upper):
+                    return f"(Imp.slice {self.E(e.value, env)} {lo} (Imp.leni {self.E(e.value, env)} - 1))"
                 if sl.upper is None:
                     return f"(Imp.dropFrom {self.E(e.value, env)} {lo})"
                 return f"(Imp.slice {self.E(e.value, env)} {lo} {self.E(sl.upper, env)})"
@@ -998,6 +1010,8 @@ class Tr:
                 return self.E(args[0], env)
             if is_np(f, "array") and len(args) == 1:
                 return self.E(args[0], env)
+            if is_np(f, "split") and len(args) == 2 and self.ty(args[0]) == "Arr" and self.ty(args[1]) == "Arr":
+                return f"(Imp.npSplit {self.E(args[0], env)} {self.E(args[1], env)})"
             if is_np(f, "argmax") and len(args) == 1 and self.ty(args[0]) == "Arr" and not isinstance(args[0], ast.Subscript):
                 return f"(Imp.argmax {self.E(args[0], env)})"
             if is_np(f, "argmax") and len(args) == 1 and isinstance(args[0], ast.Subscript) and self.ty(args[0].slice) == "Arr":
@@ -1055,7 +1069,7 @@ class Tr:
             sl = e.slice
             parts = [self.oob(e.value, env)]
             for b in (sl.lower, sl.upper):
-                if b is not None:
+                if b is not None and not self.is_minus_one(b):
                     parts += [self.oob(b, env), f"decide ({self.E(b, env)} < 0)"]
             return bor(*parts)
         if isinstance(e, ast.Call) and id(e) not in env and is_np(e.func, "argmax") and len(e.args) == 1 and not isinstance(e.args[0], ast.Subscript) \
@@ -1514,7 +1528,7 @@ class Tr:
                 f"  let s : {name}.S := {{" + ", ".join(f"self{a} := Imp.geti self ({k} : Int)" for k, a in enumerate(self.self_state)) + f"}}\n{fuel}{body}\n\nend TFV.Generated.Src\n")
 
 
-NP_FUNCS = ("float64", "int64", "floor", "array", "empty", "zeros", "empty_like", "arange", "cumsum", "argmax")
+NP_FUNCS = ("split", "float64", "int64", "floor", "array", "empty", "zeros", "empty_like", "arange", "cumsum", "argmax")
 KERNEL_BY_NAME = {k["name"]: k for k in KERNELS}
 KERNEL_PARAM_TY = {k["name"]: dict(k["params"]) for k in KERNELS}
 
